@@ -21,6 +21,9 @@ TECHNIQUE = "value-graph equality (abstract interpretation of MIR in a hash-cons
 
 def run(ctx):
     P = ctx.prog("K0")
+    # the construction itself, with cipher and MAC as uninterpreted objects (independent of how the code is organised)
+    from . import aeadshape
+    ctx.guard("shape-eval", "ChaChaPoly1305::encrypt", lambda: aeadshape.check_encrypt(ctx, P))
     ctx.guard("otk", "Context::new", lambda: aead.check_context_new(ctx, P))
     ctx.guard("count", "add_data", lambda: aead.check_counter(ctx, P, "add_data", "aad_len"))
     ctx.guard("count", "add_encrypted", lambda: aead.check_counter(ctx, P, "add_encrypted", "data_len"))
